@@ -320,7 +320,7 @@ theorem only_two_tags : ∀ r ∈ classTable, ∀ tag ∈ r.tagsTrue, tag = "is_
 theorem in every environment -/
 theorem tagValid_leaf (E : Env) (u : Nat) (c : LeafCls) (p : Params) (hok : listLeafOK c p) (hd : c ≠ .dense)
     (he : isEnvLeaf c p = false) : TagValid E (.leaf u c p) :=
-  ⟨hok, hd, envAdjOn_of_noEnvLeaf E _ he, envSymOn_of_noEnvLeaf E _ he⟩
+  ⟨hok, fun h => absurd h hd, envAdjOn_of_noEnvLeaf E _ he, envSymOn_of_noEnvLeaf E _ he⟩
 
 /-! ### (f) negative facts -/
 
